@@ -49,6 +49,15 @@ def rename_rule(ctx, prog, rid):
             continue
         # position of the element: `enumerate(rIds[, start])` gives idx = i + start; `range(len(rIds))` gives idx = i
         it, env, rv = n.iter, None, None
+        part_var = None
+        if isinstance(it, ast.Call) and dotted(it.func) == "enumerate" and it.args and isinstance(it.args[0], ast.GeneratorExp) \
+                and len(it.args[0].generators) == 1 and not it.args[0].generators[0].ifs and dotted(it.args[0].generators[0].iter) == rparam \
+                and isinstance(it.args[0].generators[0].target, ast.Name) and isinstance(it.args[0].elt, ast.Call) \
+                and dotted(it.args[0].elt.func) == "self.related_part" and [dotted(a_) for a_ in it.args[0].elt.args] == [it.args[0].generators[0].target.id] \
+                and isinstance(n.target, ast.Tuple) and len(n.target.elts) == 2 and all(isinstance(e, ast.Name) for e in n.target.elts):
+            # enumerate(map(self.related_part, rIds)): the second loop variable is the part of the i-th relationship id
+            it = ast.Call(func=it.func, args=[ast.Name(id=rparam, ctx=ast.Load())] + it.args[1:], keywords=it.keywords)
+            part_var = n.target.elts[1].id
         if isinstance(it, ast.Call) and dotted(it.func) == "enumerate" and it.args and dotted(it.args[0]) == rparam \
                 and isinstance(n.target, ast.Tuple) and len(n.target.elts) == 2 and all(isinstance(e, ast.Name) for e in n.target.elts):
             start = it.args[1] if len(it.args) > 1 else next((k.value for k in it.keywords if k.arg == "start"), ast.Constant(value=0))
@@ -63,7 +72,7 @@ def rename_rule(ctx, prog, rid):
         for m in ast.walk(n):
             if isinstance(m, ast.Assign) and isinstance(m.targets[0], ast.Attribute) and m.targets[0].attr == "partname":
                 who = P_.full(m.targets[0].value, val)
-                part_ok = who == "self.related_part(%s)" % rv
+                part_ok = who == "self.related_part(%s)" % rv or (part_var is not None and who == part_var)
                 v = m.value
                 if isinstance(v, ast.Name) and v.id in val:
                     v = val[v.id]
@@ -108,6 +117,32 @@ def slides_rename_facts(prog):
     a = ren[0].args[0]
     if isinstance(a, ast.Name) and a.id in val:
         a = val[a.id]
+    if isinstance(a, ast.Attribute) and not isinstance(a, (ast.ListComp, ast.GeneratorExp)):
+        # `<list>.rIds`: a property of the (typed) id list that returns the comprehension over itself
+        from sa import inline as _inl
+        from sa.types import FCtx as _FCtx
+
+        T_ = _inl.TYPES
+        if T_ is None:
+            from checks.c10 import load as _load
+            from sa.types import Types as _Types
+
+            T_ = _Types(prog, _load(prog.repo)[2])
+        recv = a.value
+        recv_v = val.get(recv.id, recv) if isinstance(recv, ast.Name) else recv
+        ts = T_.expr(recv_v if not isinstance(recv, ast.Name) else recv, _FCtx(sl)) if T_ is not None else ()
+        for t_ in ts:
+            if t_[0] == "inst":
+                pr = prog.lookup(t_[1], a.attr)
+                if pr is not None and pr.kind in ("property", "lazyproperty"):
+                    rets_ = [r_.value for r_ in ast.walk(pr.node) if isinstance(r_, ast.Return) and r_.value is not None]
+                    if len(rets_) == 1 and isinstance(rets_[0], (ast.ListComp, ast.GeneratorExp)):
+                        import copy as _copy
+
+                        class _S(ast.NodeTransformer):
+                            def visit_Name(self_, x):
+                                return _copy.deepcopy(recv) if x.id == "self" else x
+                        a = _S().visit(_copy.deepcopy(rets_[0]))
     lst = None
     if isinstance(a, (ast.ListComp, ast.GeneratorExp)) and len(a.generators) == 1 and not a.generators[0].ifs \
             and isinstance(a.generators[0].target, ast.Name):
